@@ -56,9 +56,10 @@ LEVEL_NOTE = ('trusted (modelled, not verified): PyMatching Matching.decode (ret
               'every run (every sliced syndrome, solver answer, helper result, scatter vector, result or KeyError '
               'key, all lattices in {2,3}^3 and a few with a side of 4); not proved: that the cube (Z-row) '
               'syndrome is reproduced (correctness of the projection / loop-filling heuristic; tested by the '
-              'oracle), termination of the while walk of get_matched_pairs (a cycle in a '
-              'PyMatching answer would make it run forever; the model reports it as a hang, the harness has a '
-              'watchdog), and the theorem does not exclude the non-KeyError exceptions (IndexError on a syndrome '
+              'oracle); termination of the while walk of get_matched_pairs does not hold in general (a cycle in '
+              'a PyMatching answer makes it run forever: observed with zero matching weights, pure X noise at '
+              'rate 1/2 on 3x3x3; the model reports a hang exactly when the loop does not terminate - proved by '
+              'pigeonhole - and the thorough tier replays that input against the watchdog); the no-KeyError theorem does not exclude the non-KeyError exceptions (IndexError on a syndrome '
               'of the wrong length, numpy shape errors on solver answers of the wrong length); list(set) order is '
               'modelled as ascending in the driver (CPython, at most 4 small ints: sides <= 4), the theorems hold '
               'for every order that keeps the elements.')
